@@ -20,7 +20,7 @@ from uberjob.stores import (BinaryFileStore, JsonFileStore, PickleFileStore, Tex
 from uberjob.stores._file_store import get_modified_time
 from uberjob.stores._mounted_store import MountedStore
 
-SCRATCH = "/tmp/verif-c11c12"
+SCRATCH = "/tmp/verif-c11c12-%d" % os.getpid()     # per process: concurrent checks must not clean up each other
 STAGING_SUFFIX = ".STAGING"          # the harness's own expectation; the model's comes from T1
 DEFAULT_ENCODING = locale.getencoding()
 
@@ -232,10 +232,24 @@ def gen_bytes(rng, max_len=40):
     return bytes(rng.randrange(256) for _ in range(n))
 
 
+def has_surrogate_pair(s):
+    """a high surrogate immediately followed by a low one: json.dumps escapes them separately and json.loads joins
+    them into ONE astral character - such a str is outside the domain on which json round-trips"""
+    return any(0xD800 <= ord(a) <= 0xDBFF and 0xDC00 <= ord(b) <= 0xDFFF for a, b in zip(s, s[1:]))
+
+
+def gen_json_text(rng, n):
+    while True:
+        s = gen_text(rng, "utf-8", n, allow_surrogate=rng.random() < 0.2)
+        if not has_surrogate_pair(s):
+            return s
+
+
 def gen_json(rng, depth=0):
     """JSON values as the harness defines them: None | bool | int | finite float | str | list of JSON values |
-    dict with str keys and JSON values.  (Tuples, non-str keys, NaN/Infinity are outside: json turns tuples into
-    lists, coerces keys to str and NaN != NaN.)"""
+    dict with str keys and JSON values, where a str may contain lone surrogates but no high surrogate immediately
+    followed by a low one.  (Tuples, non-str keys, NaN/Infinity, surrogate PAIRS are outside: json turns tuples into
+    lists, coerces keys to str, NaN != NaN, and an escaped surrogate pair is read back as one astral character.)"""
     k = rng.random()
     if depth >= 5 or k < 0.55:
         c = rng.randrange(7)
@@ -247,12 +261,12 @@ def gen_json(rng, depth=0):
             return rng.choice([0, 1, -1, 2 ** 31, -2 ** 63, 10 ** 30, rng.randint(-10 ** 6, 10 ** 6)])
         if c == 3:
             return rng.choice([0.0, -0.0, 1.5, 1e300, 5e-324, 0.1, -2.5e-7, rng.uniform(-1e9, 1e9)])
-        return gen_text(rng, "utf-8", 12, allow_surrogate=rng.random() < 0.2)
+        return gen_json_text(rng, 12)
     if k < 0.78:
         return [gen_json(rng, depth + 1) for _ in range(rng.randint(0, 4))]
     d = {}
     for _ in range(rng.randint(0, 4)):
-        d[gen_text(rng, "utf-8", 6)] = gen_json(rng, depth + 1)
+        d[gen_json_text(rng, 6)] = gen_json(rng, depth + 1)
     return d
 
 
